@@ -218,7 +218,7 @@ def line_names(rng, vendor, n, tz):
     if vendor == "tofwerk":
         stamps, f = tofwerk_stamps(rng, n, tz)
         k = rng.random()
-        if k < 0.06:  # month / day written with one digit: still a stamp time.strptime reads
+        if k < 0.03:  # month / day written with one digit: still a stamp time.strptime reads
             def short(st):
                 y, m, rest = st.split(".", 2)
                 d, t = rest.split("-", 1)
@@ -226,7 +226,7 @@ def line_names(rng, vendor, n, tz):
             short_stamps = [short(st) for st in stamps]
             if len(set(short_stamps)) == n and short_stamps != stamps:
                 stamps, f = short_stamps, f + ["short-date-fields"]
-        elif k < 0.10:  # a stamp time.strptime rejects (the import raises), or a leap second (accepted, outside the property)
+        elif k < 0.05:  # a stamp time.strptime rejects (the import raises), or a leap second (accepted, outside the property)
             bad = rng.choice(["2021.02.30-10h10m10s", "2021.13.01-10h10m10s", "2021.00.10-10h10m10s", "2021.04.31-00h00m00s",
                               "2021.01.01-24h00m00s", "2021.01.01-10h60m00s", "2021.01.01-10h10m62s", "021.01.01-10h10m10s",
                               "2021.01-10h10m10s", "2021.001.01-10h10m10s", "2021.01.01.-10h10m10s", "0000.01.01-10h10m10s",
